@@ -97,7 +97,7 @@ func GenFilterCond(t *rapid.T, n *Node) {
 		if Uni(t, "special", 10) == 0 {
 			n.P["name"], n.P["value"] = "Content-Length", Pick(t, "clv", []string{"7", "42"})
 		} else {
-			n.P["name"], n.P["value"] = Pick(t, "hname", HdrNames), Pick(t, "hval", Vals)
+			n.P["name"], n.P["value"] = Pick(t, "hname", HdrNames), Pick(t, "hval", HeaderVals)
 		}
 	case 2:
 		n.T = QueryFilter
@@ -118,7 +118,7 @@ func GenFilterCond(t *rapid.T, n *Node) {
 }
 
 func genValues(t *rapid.T, label string) []string {
-	switch Uni(t, label, 6) {
+	switch Uni(t, label, 10) {
 	case 0, 1:
 		return nil
 	case 2:
@@ -127,9 +127,25 @@ func genValues(t *rapid.T, label string) []string {
 		return []string{"2"}
 	case 4:
 		return []string{"1", "2"}
+	case 5:
+		return []string{"2", "1"}
+	case 6: // one value that contains a comma (a list sent on one line, a date, a product string)
+		return []string{"1, 2"}
+	case 7: // a superset list on one line
+		return []string{"1, 2, 3"}
+	case 8:
+		return []string{"gzip, deflate"}
 	}
-	return []string{"2", "1"}
+	return []string{"gzip"}
 }
+
+// HeaderVals: values header filters and verifiers are configured with: plain
+// ones, one that contains a comma, one that is an element of a comma list some
+// messages carry.
+var HeaderVals = []string{"1", "2", "1", "2", "1, 2", "gzip"}
+
+// PortedHosts: hosts with a port and bracketed IPv6 literals (C13 pingbacks).
+var PortedHosts = []string{"example.com:8080", "[::1]", "[::1]:8080", "a.example.com:80"}
 
 // BadQueryPairs: pairs url.ParseQuery rejects (bad escape, stray percent sign,
 // semicolon separator) while it keeps decoding the pairs around them.
